@@ -20,6 +20,24 @@ claimed = {
  "C17": ("proof", "DESIGN.md 4 (C17), 3.7", "regular-language lemmas (marker encoding, z3 5.1/cvc5) over regexp contracts derived from the current pattern literals, user name domain [^\\n]*",
          "For invalid user / failed password / maximum attempts with the user name ranging over all of [^\\n]* (spaces, ' from ', ' port ' included, any length): every printed line reaches its handler and matches, and the Source and Port groups are exactly the printed address and port; composed with the handlers' verified postconditions.",
          "Address domain \\S+, port [0-9]+ (what sshd prints); derived regexp contracts and the lemma generator are trusted."),
+ "C01": ("proof", "DESIGN.md 4 (tracker contracts, C01)", "contract-based deductive verification: data-structure invariant TrackerInv proved inductive over the four public operations + write-site assertions + ghost provenance postconditions",
+         "TrackerInv (I0-I8) is assumed for an arbitrary symbolic tracker state and re-established by RemoteLogin, AuditdEvent and both cleanup operations on every path (go/ssa symbolic execution, Iterate/WithLockedValueDo expanded with loop invariants, helpers by contract): true after every finite history over any number of sessions and PIDs. Each emitted event is proved to carry the identity of the login bound to its own session, whose PID equals the PID of the LOGIN record that opened it.",
+         "Assumes EventWriter.Write, zap, strconv.Atoi, time contracts (listed); go-libaudit behaviour below AuditdEvent is out of reach; lock-free sequential semantics here (schedules are C03)."),
+ "C02": ("proof", "DESIGN.md 4 (C02)", "contract-based deductive verification: whole-view postconditions over the ghost output trace with provenance, loop invariant of the flush loop",
+         "Per-operation postconditions (held queue extended by exactly the event / exactly one rendering emitted / queue rendered in order and emptied on binding) and the invariant 'bound => queue empty' are proved for all states; they compose by induction to exactly-once, in-order emission. Any queue length, any position of the login, several sessions pending (frame conditions).",
+         "The composition over whole histories is the standard induction over operations (each operation is proved from an arbitrary invariant-satisfying state); Write appends one event or fails without effect (assumed)."),
+ "C04": ("proof", "DESIGN.md 4 (C04)", "contract-based deductive verification: postconditions 'nothing emitted, nothing modified' per uncorrelated case",
+         "Proved for every state satisfying the invariant, hence at every prefix of every history: no/unset session, unknown session with a non-LOGIN record, uncorrelated session, LOGIN without parked login, cleanup: no output; every emitted event carries the processed event's session ID and that session's identity.",
+         "The string 'unset' for 4294967295 comes from auparse (dependency)."),
+ "C09": ("proof", "DESIGN.md 4 (C09)", "contract-based deductive verification: invariant clause over ghost g_disp (credential-disposal processed) + postconditions of RemoteLogin/AuditdEvent",
+         "Invariant: a tracked session whose CRED_DISP was processed is unbound and still holds that record; binding it (late login) or processing CRED_DISP on a bound session removes it from the table — proved for all states. Found and fixed D3 (session not released by the late-login flush).",
+         "Ghost g_disp is set by contract-level ghost code at AuditdEvent entry from the event's own fields."),
+ "C14": ("proof", "DESIGN.md 4 (C14)", "contract-based deductive verification: functional postcondition + frame of toAuditEvent, asserted again at every write site",
+         "toAuditEvent's result is proved field by field against the audit event and the login (type, component, timestamp, auditId, outcome, metadata incl. process_args iff args, subjects copied, source/target shared) and proved to modify nothing reachable from its inputs, for all inputs.",
+         "aucoalesce's Result/Summary content is the dependency's."),
+ "C16": ("proof", "DESIGN.md 4 (C16)", "contract-based deductive verification: whole-view postconditions of both cleanup operations with deletion during map iteration (visited-set invariants)",
+         "For every tracker state and cut-off: surviving sessions are exactly those correlated or not older than the cut-off, surviving parked logins exactly those not older; values, user fields, the other map and the output unchanged; invariant preserved.",
+         "time.Time.Before as strict order; that Read applies a one-minute cut-off every minute is covered by the auditd contracts when built; real time is not decided."),
 }
 na_reason = "not yet built in this revision of the machinery (see DESIGN.md section 7 for the construction order)"
 props = [json.loads(l) for l in open('/verif/properties.jsonl')]
